@@ -22,8 +22,8 @@ type Finding struct {
 // advertisement equal to the sender's current one.
 func (sn *Snap) RoutingQuiescent() (bool, string) {
 	s := sn.s
-	if vsched.Pending() > 0 {
-		return false, "tasks queued"
+	if vsched.Pending() > 0 || len(s.Held) > 0 {
+		return false, "tasks queued or held"
 	}
 	for i, n := range s.Nodes {
 		if !n.Up {
